@@ -37,3 +37,8 @@ PROPS["C13"] = dict(pkg="chain", level="exploration", stages=[
     direct("distance", "TestC13Distance"),
     rapid("rapid", "TestC13", dict(shards=16, checks=150), dict(shards=16, checks=5000, timeout=7000)),
 ])
+
+PROPS["C05"] = dict(pkg="chain", level="exploration", stages=[
+    direct("heavy", "TestC05Heavy"),
+    rapid("rapid", "TestC05", dict(shards=16, checks=100), dict(shards=16, checks=3000, timeout=7000)),
+])
